@@ -218,4 +218,4 @@ def run(ctx: common.Ctx):
     tgraph.run_reduce(ctx, 300 if quick else 3000)
     # cumulative_sum at graph level (Model/TGraphScatter.cumsumGraph; Props/C10Cumsum.lean), incl. include_initial through tie D
     from .. import scattertie
-    scattertie.run(ctx, 60 if ctx.tier == "quick" else 800, label="cumsum", kinds=("cumsum",))
+    scattertie.run(ctx, 100 if ctx.tier == "quick" else 1200, label="cumsum", kinds=("cumsum", "argext"))
